@@ -183,6 +183,13 @@ def exec_for(e: Engine, s: ast.For, st: State) -> List[Outcome]:
     assume_invariants(e, spec, body_st, k, space, pre_loop)
     env: Dict[str, SV] = {}
     e.bind_target(s.target, space.item(k), env, body_st)
+    if isinstance(s.target, ast.Name) and it.tag and it.tag[0] in ("items", "litseq"):
+        lits = [x.tag[1] for x in (it.tag[1] if it.tag[0] == "items" else it.v) if isinstance(x, SV) and x.tag and x.tag[0] == "lit"]
+        n_items = len(it.tag[1]) if it.tag[0] == "items" else len(it.v)
+        if lits and len(lits) == n_items and all(isinstance(x, str) for x in lits):
+            v0 = env[s.target.id]
+            env[s.target.id] = SV(v0.ty, v0.v, v0.none, tag=("oneof", tuple(lits)))
+            body_st.assume(Or(*[v0.v == z3.StringVal(x) for x in lits]))
     body_st.store.update(env)
     for v in env.values():
         if v.ty.kind == "obj":
